@@ -28,10 +28,9 @@ TRUSTED = ['Python object semantics (attribute rebinding, dict sharing by shallo
            'class, identity of returned arrays, routine trace)',
            'the harness attributes a call of a numeric routine to a pulse by inspecting the calling frame '
            '(tools/ffv/cachesim.py Probe)']
-ASSUMPTIONS = ['frequency grids are immutable values: the caller does not modify an array in place after passing it as '
-               'omega (the object keeps a reference, finding c07-omega-alias); user-supplied arrays given to cache_* '
-               'are what the caller says (gop_ok); attributes are not assigned directly (pulse.omega = ..., '
-               'pulse.eigvals = ...)',
+ASSUMPTIONS = ['user-supplied arrays given to cache_* are what the caller says (gop_ok); attributes are not assigned directly '
+               '(pulse.omega = ..., pulse.eigvals = ...); frequency grids are immutable values in the model -- justified by '
+               'the private copy the omega setter makes (commit 0d133f1; probed on every run)',
                'pulse-correlation getters have no frequency argument and depend on how the pulse was made by design; '
                'for them the theorem is consistency with the current _omega (C07_pulse_correlation_consistent)',
                'sampled correspondence uses d = 2 pulses with 2-3 segments and grids of 3-4 frequencies; the '
@@ -208,11 +207,10 @@ def battery(w, mini=False):
 def property_check(wk, history, mini=False):
     """run the history; returns (observations, list of (observable, detail)).  The observations carry, per call, the
     value flag (0 equals the fresh pulse's value, 1 differs / raises although the fresh pulse does not, 2 not
-    compared) that is compared with the model's verdict inside Coq.  For the extended pulse (world EXTENDED) the
-    deviations are not failures by themselves: the model mirrors the known defect and decides (see run)."""
+    compared) that is compared with the model's verdict inside Coq."""
     w = world(wk)
     bad = []
-    plain = not w.extended
+    plain = not w.extended      # the numerical evaluation of the invariant uses canonical eigen-data as reference
 
     def vflag(n, call, val, exc):
         if call[0] not in ('call', 'fail') or not is_grid_getter(call[2]) or isinstance(exc, cs.Injected):
@@ -240,7 +238,7 @@ def property_check(wk, history, mini=False):
             if v and not any(b[0] == 'invariant' for b in bad):
                 bad.append(('invariant', 'after call %d object %d: %s' % (n, i, v)))
     obs, objs, values = cs.run_history(w, history, want_values=True, after_call=after_call, vflag=vflag)
-    if plain:
+    if True:
         with warnings.catch_warnings():
             warnings.simplefilter('ignore')
             for i, p in enumerate(objs):
@@ -423,10 +421,9 @@ def run(ctx):
     for n in range(nrand):
         wk = PLAIN[n % len(PLAIN)]
         items.append((wk, random_history(r, wk, bad_user=(n % 6 == 0)), False))
-    # the extended pulse (model: FreshExtended): the model mirrors the known defect; what is checked is that the
-    # implementation deviates from fresh pulses only where the model says so
+    # the pulse made by extend(...) with cached diagonalization (model: FreshExtended)
     for n in range(300 if ctx.thorough else 60):
-        items.append((EXTENDED, random_history(r, EXTENDED, maxlen=6, p_fail=0.1), True))
+        items.append((EXTENDED, random_history(r, EXTENDED, maxlen=6, p_fail=0.1), n % 4 != 0))
     if ctx.thorough:
         # all histories of length <= 2 over the full alphabet x 3 grids on a pulse and one copy (two pulse kinds),
         # all histories of length 3 over the reduced alphabet
@@ -472,7 +469,7 @@ def run(ctx):
             cl = '%s/len%d/%s' % (WORLDS[wk][0].__name__.strip('_'), len(H),
                                   ','.join(sorted({c[2][0] if c[0] in ('call', 'fail') else c[0] for c in H}))[:80])
             classes[cl] = classes.get(cl, 0) + 1
-            if bad and wk != EXTENDED:
+            if bad:
                 def still(c, wk=wk, mini=mini):
                     return bool(property_check(wk, c, mini)[1]) if history_ok(c) else False
                 small = shrink(wk, H, still)
@@ -508,9 +505,7 @@ def run(ctx):
     # probes outside the alphabet
     d = probe_omega_alias()
     if d:
-        # kind 'probe' (not 'prop'): tools/check.py skips the search for a failing input -- and with it the
-        # VIOLATION for a broken obligation -- as soon as one failure of kind prop/corr exists, even a known one
-        failures.append(dict(kind='probe', observable='stale cache after in-place modification of the caller\'s omega array',
+        failures.append(dict(kind='prop', observable='stale cache after in-place modification of the caller\'s omega array',
                              signature='c07-omega-alias',
                              detail='p.get_filter_function(w); w *= 2; p.get_filter_function(w) serves the filter function of '
                                     'the old frequencies (%s): PulseSequence.omega keeps a reference (np.asarray) to the '
@@ -518,7 +513,7 @@ def run(ctx):
                              input=dict(probe='omega_alias')))
     d = probe_eig_intermediates()
     if d:
-        failures.append(dict(kind='probe', observable='eigenbasis-dependent intermediates survive cleanup(\'conservative\')',
+        failures.append(dict(kind='prop', observable='eigenbasis-dependent intermediates survive cleanup(\'conservative\')',
                              signature='c07-eig-intermediates',
                              detail='pulse made by extend(..., cache_diagonalization=True); get_control_matrix(w, '
                                     'cache_intermediates=True); cleanup(\'conservative\'); same frequencies requested again: %s'
